@@ -15,7 +15,10 @@ RULE = ("2-3 objects (MafRecord parsed by MafRecord.from_line under the built-in
         "key construction outcome, __cmp__ and the six rich comparisons on every ordered pair; "
         "streams valid / single-defect (one unlisted chromosome or one non-numeric position) / boundary "
         "(ties, 9 vs 10, '2' vs '10', empty record, empty name) / adversarial (lenient int spellings, "
-        "signs, big numbers, barcode order on a plain Locatable); non-trivial = at least two keys built "
+        "signs, big numbers, barcode order on a plain Locatable); contig lists of 4-6 and of 25-30 names "
+        "(ranks 10 and up); for a share of the cases another sort order with a different contig list over the "
+        "same names (reversed / rotated / one name dropped, either order class) first builds keys for the same "
+        "objects in the same interpreter (\"warm\"), then the case's own sort order is observed; non-trivial = at least two keys built "
         "and at least one ordered pair of distinct objects compared; distinct by hash of the case")
 ASSUMPTIONS = [
     "values reaching a key are None, int or str (no float, bool, bytes, user classes)",
@@ -32,8 +35,24 @@ CONTIG_MODES = ["none", "none", "empty", "lexical", "karyotypic", "karyotypic", 
 
 
 # ------------------------------------------------------------ generation
-def _case(stream, order, contigs, recs):
-    return {"stream": stream, "order": order, "contigs": contigs, "recs": recs}
+def _case(stream, order, contigs, recs, warm=None):
+    return {"stream": stream, "order": order, "contigs": contigs, "recs": recs, "warm": warm}
+
+
+def _other_contigs(rng, contigs):
+    """a different contig list over (mostly) the same names"""
+    c = list(contigs)
+    r = rng.random()
+    if r < 0.4:
+        c.reverse()
+    elif r < 0.7:
+        k = rng.randrange(1, len(c)) if len(c) > 1 else 0
+        c = c[k:] + c[:k]
+    elif r < 0.85:
+        rng.shuffle(c)
+    else:
+        c = c[1:] + ["extra"]
+    return c
 
 
 def _gen_one(rng):
@@ -85,7 +104,10 @@ def _gen_one(rng):
                                   "e": rng.choice([None, 5, "x", "+4"])}
         if order == "B" and rng.random() < 0.7:
             order = "C"
-    return _case(stream, order, contigs, recs)
+    warm = None
+    if contigs and rng.random() < 0.35:
+        warm = [rng.choice(["C", "B"]), _other_contigs(rng, contigs)]
+    return _case(stream, order, contigs, recs, warm)
 
 
 def generate(rng, n):
@@ -117,6 +139,15 @@ def corpus():
         _case("corpus", "C", ["1", "0"], [_t(chrom="0", start="5", end="5"), _t(chrom="1", start="5", end="5")]),
         _case("corpus", "B", [1, 0], [_u(tumor="", normal="", chrom="0", start="0", end="0"), _u(tumor="T1", chrom="", start="0"),
                                        _t(tumor="T1", normal="", chrom="0", start="1", end="1")]),
+        # two-digit contig ranks compare as numbers (3 before 11, 9 before 10)
+        _case("corpus", "C", C.LONG, [_t(chrom="3", start="5", end="5"), _t(chrom="11", start="5", end="5"), _u(chrom="2", start="5", end="5")]),
+        _case("corpus", "B", C.CHR_LONG, [_u(tumor="T1", chrom="chr10", start="1", end="1"), _u(tumor="T1", chrom="chr9", start="1", end="1"),
+                                          _u(tumor="T1", chrom="chrX", start="1", end="1")]),
+        # another sort order with another contig list used first in the same interpreter must not matter
+        _case("corpus", "C", ["chr1", "chr2", "chr10"], [_u(chrom="chr2", start="1", end="1"), _u(chrom="chr10", start="1", end="1")],
+              warm=["B", ["chr10", "chr2", "chr1"]]),
+        _case("corpus", "C", ["chr1", "chr2"], [_u(chrom="chr2", start="1", end="1"), _u(chrom="chr10", start="1", end="1")],
+              warm=["C", ["chr10", "chr2", "chr1"]]),
         _case("corpus", "C", None, [{"kind": "plain", "c": 0, "s": 0, "e": 0}, {"kind": "plain", "c": "", "s": "0", "e": None},
                                      {"kind": "plain", "c": "0", "s": None, "e": 0}]),
         _case("corpus", "C", None, [{"kind": "plain", "c": 1, "s": "9", "e": None}, {"kind": "plain", "c": "1", "s": 10, "e": 3},
@@ -165,6 +196,15 @@ def run_impl(case):
     so = cls(contigs=list(contigs)) if contigs is not None else cls()
     keyf = so.sort_key()
     objs = [C.build_obj(d) for d in case["recs"]]
+    if case.get("warm"):
+        # another sort order, with a different contig list, keys the same objects first
+        wcls = Coordinate if case["warm"][0] == "C" else BarcodesAndCoordinate
+        wkey = wcls(contigs=list(case["warm"][1])).sort_key()
+        for o in objs:
+            try:
+                wkey(o)
+            except Exception:
+                pass
     info, keys = [], []
     for o in objs:
         try:
@@ -264,8 +304,10 @@ def classify(case, obs):
         return case["stream"] + "/error"
     kinds = sorted(set(r["kind"] for r in case["recs"]))
     failed = sum(1 for i in obs["info"] if i[1] is not None)
-    return "%s/%s/contigs=%s/%s/keyfail=%s" % (
-        case["stream"], case["order"], "no" if not case["contigs"] else "yes", "+".join(kinds), "0" if failed == 0 else "1+")
+    nc = len(case["contigs"] or [])
+    return "%s/%s/contigs=%s%s/%s/keyfail=%s" % (
+        case["stream"], case["order"], "no" if nc == 0 else ("short" if nc <= 10 else "long"),
+        "+warm" if case.get("warm") else "", "+".join(kinds), "0" if failed == 0 else "1+")
 
 
 def nontrivial(case, obs):
